@@ -18,6 +18,8 @@ type c11Mon struct {
 	timeout  bool // thorough: one response is never sent; the 17 s fallback must move the hand on
 	requests int
 	usedTO   bool
+	kinds    map[string]int // request kinds seen in the current hand -> number of players asked
+	kindsGC  int
 }
 
 // hasNewState looks (without consuming anything) for a published state of the hand other than the given one.
@@ -46,6 +48,10 @@ func (m *c11Mon) onRequest(p *Play, e *h.Ev, kind string, asked []string) []stri
 	gs := t.State.GameState
 	m.requests++
 	c.Count("requests", 1)
+	if m.kinds == nil || m.kindsGC != t.State.GameCount {
+		m.kinds, m.kindsGC = map[string]int{}, t.State.GameCount
+	}
+	m.kinds[kind] = len(asked)
 	w := func() interface{} {
 		mm := p.witness().(map[string]interface{})
 		mm["request"] = e.Brief()
@@ -197,6 +203,14 @@ func c11Run(c *h.Ctx) {
 			return
 		}
 		roster := hd.Roster()
+		// the table's own level for this hand says what has to be collected: an ante from every dealt-in player
+		// (which blind positions are asked depends on the hand engine's own rules for zero amounts and is judged per request)
+		if gb := hd.Settled.T.State.GameBlindState; gb != nil && m.kindsGC == hd.Settled.T.State.GameCount {
+			if gb.Ante > 0 && m.kinds["ante"] != len(roster) {
+				c.Violate("C11/ante-not-requested-from-everybody", fmt.Sprintf("hand %d is played at ante %d: %d of %d dealt-in players were asked for it", p.HandNo, gb.Ante, m.kinds["ante"], len(roster)), p.witness())
+				return
+			}
+		}
 		res, _ := p.HandResult(hd)
 		if res == nil || len(res.Players) != len(roster) {
 			n := -1
@@ -282,7 +296,7 @@ func init() {
 			"'moves on by itself after the timeout' is exercised in one case in forty (17 s each, run in parallel); bounds 16.5 s .. 24 s",
 			"liveness: a hand with every request answered and every turn played that shows no new state for 14 s is reported as not finishing (the engine's own fallback timers are 17 s, so they cannot rescue it silently)",
 		},
-		Cases:       func(tier string) int { return map[string]int{"quick": 480, "thorough": 8000}[tier] },
+		Cases: func(tier string) int { return map[string]int{"quick": 480, "thorough": 8000}[tier] },
 		MinNontrivial: func(tier string) int {
 			return map[string]int{"quick": 400, "thorough": 7000}[tier]
 		},
